@@ -341,7 +341,9 @@ Proof. rewrite LOOPG_ARMG. apply ARMG_arm. Qed.
 (* the multi-character patterns the readers and the loop test with prefixb *)
 Definition PATS : list (list Z) :=
   [[43; 43]; [45; 45]; zs "Add"; zs "2Add"; zs ".onTime"; zs ".T"; [47; 42]; [47; 47]; [48; 120]; [48; 111]; [42; 47]; zs ".s(";
-   zs "End"; zs "END"; [35; 35]; [35; 32]; [35; 45]; [47; 47; 47]; [47; 42; 42]].
+   zs "End"; zs "END"; [35; 35]; [35; 32]; [35; 45]; [47; 47; 47]; [47; 42; 42];
+   (* `l` gives the dot and the word after it back when the word is no reservation (read_length): the test of these words looks ahead *)
+   zs ".Random"; zs ".onNote"; zs ".N"; zs ".onCycle"; zs ".C"].
 (* e is a proper prefix of p: a test of p on e would look beyond the end of e *)
 Definition pprefix (e p : list Z) : bool := (length e <? length p)%nat && prefixb e p.
 Fixpoint tails (s : list Z) : list (list Z) := match s with [] => [] | c :: r => s :: tails r end.
@@ -819,8 +821,66 @@ Lemma read_dot_res_loc w ot tb e ln X : read_dot_res w ot tb e ln = X -> pre e -
 Proof. intros H P K. unfold read_dot_res in H |- *. loc_comp H K. Qed.
 Global Instance read_dot_res_Loc w ot tb e ln : Loc (read_dot_res w ot tb e ln) (read_dot_res w ot tb (e ++ t) ln) (fun X => pre e /\ kr3 X) extr3
   := fun X H K => read_dot_res_loc w ot tb e ln X H (proj1 K) (proj2 K).
+(* `l.` + a word that is no reservation: the reader goes back to the dot.  The word read in e ++ t is a reservation word only
+   if the word read in e is one - unless '.' + the text is a proper prefix of '.' + that word, which pre e excludes *)
+Lemma take_word_kw : forall kw r, pprefix r kw = false -> fst (take_word (r ++ t)) = kw -> fst (take_word r) = kw.
+Proof.
+  induction kw as [|k kw IH]; intros r PP H.
+  - destruct r as [|c r']; [reflexivity|]. cbn [app take_word] in H |- *. destruct (is_word_char c); [|reflexivity].
+    destruct (take_word (r' ++ t)). discriminate H.
+  - destruct r as [|c r']; [discriminate PP|]. cbn [app take_word] in H |- *. destruct (is_word_char c); [|discriminate H].
+    destruct (take_word (r' ++ t)) as [w x] eqn:G. cbn [fst] in H. injection H as -> Hw.
+    assert (PP' : pprefix r' kw = false).
+    { unfold pprefix in PP |- *. cbn [length prefixb] in PP. rewrite Z.eqb_refl in PP. exact PP. }
+    specialize (IH r' PP'). rewrite G in IH. cbn [fst] in IH. specialize (IH Hw).
+    destruct (take_word r') as [w' x']. cbn [fst] in IH |- *. rewrite IH. reflexivity.
+Qed.
+Lemma loc_list_eqb_eq : forall a b, list_eqb a b = true -> a = b.
+Proof.
+  induction a as [|x a IH]; intros [|y b] H; cbn [list_eqb] in H; try discriminate; [reflexivity|].
+  apply andb_true_iff in H. destruct H as [H1 H2]. apply Z.eqb_eq in H1. subst y. rewrite (IH b H2). reflexivity.
+Qed.
+Lemma list_eqb_false_of a b : (a = b -> False) -> list_eqb a b = false.
+Proof. intros H. destruct (list_eqb a b) eqn:E; [|reflexivity]. exfalso. apply H. apply loc_list_eqb_eq, E. Qed.
+Lemma get_word_kw kw e : In (46 :: kw) PATS -> hd 0 kw <> 35 -> list_eqb kw kw = true -> pre e -> eq_char e 46 = true ->
+  list_eqb (fst (get_word (tl e))) kw = false -> list_eqb (fst (get_word (tl (e ++ t)))) kw = false.
+Proof.
+  intros HP H35 Hrefl P E N. apply list_eqb_false_of. intros W.
+  destruct e as [|d r]; [discriminate E|]. cbn [eq_char] in E. apply Z.eqb_eq in E. subst d. cbn [app tl] in *.
+  destruct P as [[a [Ea _]] PS].
+  assert (PP : pprefix r kw = false).
+  { pose proof (PS (46 :: r) ltac:(discriminate) (suffix_refl _) (46 :: kw) HP) as Q.
+    unfold pprefix in Q |- *. cbn [length prefixb] in Q. exact Q. }
+  destruct r as [|c r']; [destruct kw; [discriminate N | discriminate PP]|].
+  destruct (Z.eq_dec c 35) as [->|N35].
+  - cbn [app] in W. unfold get_word in W. destruct (take_word (r' ++ t)). cbn [fst] in W. rewrite <- W in H35. apply H35. reflexivity.
+  - change ((c :: r') ++ t) with (c :: r' ++ t) in W. rewrite (get_word_not35 c (r' ++ t) N35) in W. rewrite (get_word_not35 c r' N35) in N.
+    change (c :: r' ++ t) with ((c :: r') ++ t) in W. rewrite (take_word_kw kw (c :: r') PP W) in N. rewrite Hrefl in N. discriminate N.
+Qed.
+
 Lemma read_length_loc tb e ln X : read_length tb e ln = X -> pre e -> kr3 X -> read_length tb (e ++ t) ln = extr3 X.
-Proof. intros H P K. unfold read_length, guard3 in H |- *. loc_comp H K. Qed.
+Proof.
+  intros H P K. unfold read_length, guard3 in H |- *. loc_comp H K.
+  (* the branch that goes back to the dot *)
+  unfold c_DOT in *.
+  apply orb_false_elim in E1. destruct E1 as [E1a E1b]. unfold is_w in *.
+  apply orb_false_elim in E1b. destruct E1b as [E1b E1c]. apply orb_false_elim in E2. destruct E2 as [E2a E2b].
+  apply orb_false_elim in E3. destruct E3 as [E3a E3b].
+  assert (G : forall kw, In (46 :: kw) PATS -> hd 0 kw <> 35 -> list_eqb kw kw = true ->
+               list_eqb (fst (get_word (tl e))) kw = false -> list_eqb (fst (get_word (tl (e ++ t)))) kw = false).
+  { intros kw A B C D. exact (get_word_kw kw e A B C P E D). }
+  rewrite E0 in G. cbn [fst] in G.
+  pose proof (G (zs "Random") ltac:(in_pats) ltac:(vm_compute; discriminate) eq_refl E1a) as G1.
+  pose proof (G (zs "onTime") ltac:(in_pats) ltac:(vm_compute; discriminate) eq_refl E1b) as G2.
+  pose proof (G (zs "T") ltac:(in_pats) ltac:(vm_compute; discriminate) eq_refl E1c) as G3.
+  pose proof (G (zs "onNote") ltac:(in_pats) ltac:(vm_compute; discriminate) eq_refl E2a) as G4.
+  pose proof (G (zs "N") ltac:(in_pats) ltac:(vm_compute; discriminate) eq_refl E2b) as G5.
+  pose proof (G (zs "onCycle") ltac:(in_pats) ltac:(vm_compute; discriminate) eq_refl E3a) as G6.
+  pose proof (G (zs "C") ltac:(in_pats) ltac:(vm_compute; discriminate) eq_refl E3b) as G7.
+  destruct (get_word (tl (e ++ t))) as [cmd' s1']. cbn [fst] in G1, G2, G3, G4, G5, G6, G7.
+  rewrite G1, G2, G3, G4, G5, G6, G7. cbn [orb].
+  rewrite (get_note_length_loc e ln _ E4 P K). cbv beta iota delta [ext3 fst snd]. rewrite E5. reflexivity.
+Qed.
 Global Instance read_length_Loc tb e ln : Loc (read_length tb e ln) (read_length tb (e ++ t) ln) (fun X => pre e /\ kr3 X) extr3
   := fun X H K => read_length_loc tb e ln X H (proj1 K) (proj2 K).
 Lemma read_res_or_value_loc w ot mk tb e ln X : read_res_or_value w ot mk tb e ln = X -> pre e -> kr3 X -> read_res_or_value w ot mk tb (e ++ t) ln = extr3 X.
